@@ -43,7 +43,17 @@ def lifter(fn):
     return fn
 
 
+def _load_lifters():
+    import importlib
+    import pkgutil
+    from . import lifters
+    for m in pkgutil.iter_modules(lifters.__path__):
+        importlib.import_module(f"harness.lifters.{m.name}")
+
+
 def run(repo):
+    if not LIFTERS:
+        _load_lifters()
     info = {}
     for fn in LIFTERS:
         name, content, meta = fn(repo)
@@ -52,4 +62,5 @@ def run(repo):
     return info
 
 
-# Lifters are appended below, one per generated file. -------------------------------
+# Lifters live in harness/lifters/*.py (auto-imported); each registers itself with @translate.lifter
+# and returns (file name, Lean source, meta dict).
